@@ -4,6 +4,7 @@ CONSTANTS
   Templates <- TplC17c
   Bundles <- NoBundle
   Ctxs <- Wide
+  Reqs <- FullReq
   Tries <- One
   Hists <- NoHist
   BackoffCfgs <- NoBoCfgs
